@@ -34,6 +34,8 @@ def shards(tier, seed):
         for mm in ((3, 8), (4, 12), (4, 25)):
             for nb in (1, 2):
                 out.append(dict(name="rec/L%d/m%d-%d/b%d" % (L, mm[0], mm[1], nb), kind="rec", L=L, mm=mm, nb=nb, weight=L * 50 * nb))
+    if tier != "quick":
+        out.append(dict(name="rec/L600/m4-25/b1", kind="rec", L=600, mm=(4, 25), nb=1, long=True, weight=60000))
     for L in ((80,) if tier == "quick" else (80, 120)):
         for w in ((5, 9) if tier == "quick" else (5, 9, 21)):
             out.append(dict(name="tfm/L%d/w%d" % (L, w), kind="tfm", L=L, w=w, weight=L * 30))
@@ -105,6 +107,8 @@ def run_rec(rec, sh, tier, seed):
     widths = sorted(set([mn, mn + 2, mx - 1]))
     tot_rows = tot0 = totL = tot_runs = 0
     bumps1 = [(w, sg, a, s) for w in widths for sg in (1, -1) for a in (1.0, 3.0) for s in range(0, L - w + 1)]
+    if sh.get("long"):
+        bumps1 = [b for b in bumps1 if b[3] in (0, 1, 2, 3, 5, 127, 128, 255, 256, 300, L - b[0] - 3, L - b[0] - 1, L - b[0]) and b[2] == 3.0]
     if nb == 1:
         bumpsets = [(b,) for b in bumps1]
         ns = (1, 2, 3) if tier != "quick" else (1, 2)
